@@ -1,24 +1,39 @@
-"""C05 — rolling outputs are input-length and null exactly during warm-up. TEMPORARY Engine-K-only registration (scratch)."""
+"""C05 — rolling outputs are input-length and null exactly during warm-up. Engine K (length / no panic on every entry point;
+null mask of the exact family is asserted by the C03 oracles) + Engine M (null mask of the float kernels)."""
 import kani_engine
+from mir_engine import props_m
 
-RULE = ("one Kani harness per (group of rolling entry points, length N); window w in 1..=N+2, min_periods (explicit 0..=w or "
-        "omitted) and the input (values, null mask) are kani::any(); asserted: output length == N and absence of panics; "
-        "a harness is non-trivial when its kani::cover! witnesses are SATISFIED")
+RULE = ("Engine K: one harness per (group of <= 2 rolling entry points, length N in 0..=3): window, min_periods (incl. omitted) and values "
+        "are kani::any(); asserts exactly N outputs and no panic. Engine M: every float kernel executed from MIR per (L, w, min_periods in "
+        "{omitted} U 0..=w, null masks); z3 asked per position whether the null flag can differ from "
+        "[valid count < max(min(mp or w/2, w), k_stat) or statistic undefined]; non-trivial = covers SATISFIED / all queries unsat")
 
 MANIFEST = {
-    "engine": "K",
-    "technique": "bounded model checking (Kani/CBMC) of the length law of all 36 rolling entry points",
+    "engine": "K+M",
+    "technique": "bounded model checking (Kani/CBMC) of output length and panic-freedom of all 36 rolling entry points; MIR->SMT symbolic "
+                 "execution of the 30 float kernels with z3 deciding the null-mask law",
     "design_ref": "DESIGN.md 3/C05",
-    "level_text": "CBMC decides for all inputs of each concrete length N, all windows 1..=N+2 and all min_periods that every "
-                  "ts_* entry point returns exactly N outputs without panicking",
-    "level_note": "trusted: Kani/CBMC/CaDiCaL; bound: N <= 3 (quick) / <= 4 (thorough); |x| <= 1000; null-mask law: see C03 harnesses (K) and Engine M",
+    "level_text": "for all values, windows 1..=N+2 and min_periods (incl. omitted) at lengths 0..=3 (4 thorough) every rolling entry point returns "
+                  "exactly one output per input without panicking; for all real inputs at lengths <= 4 (5 thorough) and all min_periods 0..=w the "
+                  "output of each float kernel is null exactly when the (pairwise-complete) valid count is below the effective threshold or the "
+                  "statistic is undefined (zero spread where the definition divides by it)",
+    "level_note": "trusted: Kani/CBMC, z3, driver protocol (C02); length harnesses stub f64::sqrt/powi/mul_add (and the residual aggregates of "
+                  "ts_vregx_resid_*) by nondeterministic values — sound for length/no-panic only; integer outputs: the null is NaN's integer cast "
+                  "(0) and cannot be told from a value, the mask law is checked on float/optional outputs",
 }
+READY = True
 
 
 def check(v, tier, opts):
-    v.functions.update(["all ts_* of RollingValidFeature, RollingFeature, RollingValidCmp, RollingValidNorm, RollingValidBinary, "
-                        "RollingValidReg, RollingValidRegBinary (36 entry points)"])
-    v.bounds.append("N in 0..=3 quick, ..=4 thorough; w in 1..=N+2; min_periods explicit 0..=w or omitted; |x| <= 1000")
-    v.outside.append("ts_fdiff/ts_vfdiff (feature fdiff not in the pinned build); null-mask law of float kernels (Engine M)")
+    v.functions.update(["all ts_* entry points of RollingValidFeature, RollingFeature, RollingValidCmp, RollingValidNorm, RollingValidBinary, "
+                        "RollingValidReg, RollingValidRegBinary"])
+    v.bounds.append("Engine K: N in 0..=3 quick, 4 thorough; w in 1..=N+2; min_periods symbolic incl. None; |x|<=1000")
+    v.bounds.append("Engine M: L in {0,1,2,4} quick, 0..=5 thorough; w in 1..=L+2; min_periods in {omitted} U 0..=w; null masks (pairs sampled for two series)")
+    v.stubs.update(["f64::sqrt / f64::powi / f64::mul_add -> any f64 (length harnesses only)",
+                    "AggValidBasic::{vmean,vstd,vskew} -> drain + any f64 (ts_vregx_resid_* length harnesses only)"])
+    v.outside.append("Polars backend; ts_fdiff/ts_vfdiff (feature off); null mask of ts_vregx_resid_std/skew (C04 outside list)")
+    only = opts.get("only")
     kani_engine.decide(v, "C05", tier, opts)
+    if not only or only.startswith("ts_"):
+        props_m.c05_m(v, tier, opts)
     return v.finish(RULE)
